@@ -7,7 +7,7 @@ CU = {"impl": r"^impl Cursor$", "impl_header": "impl Cursor", "impl_name": "Curs
 UNIT = {
     "name": "eval_int",
     "env": [os.path.join(ENV, "eval_int_env.rs")],
-    "declared_trusted": {r"external_body": 13},
+    "declared_trusted": {r"external_body": 17},
     "items": [
         {"kind": "fn", "file": CL, "name": "kind", "impl": r"^impl EvalResult$", "impl_header": "impl EvalResult", "impl_name": "EvalResult", "ret": "r",
          "subst": [("unsafe {", "{", 1, "R20")],
@@ -20,6 +20,20 @@ UNIT = {
              "ffi_kind(self.x) != CXEval_Int ==> r.is_none()",
              "ffi_kind(self.x) == CXEval_Int && ffi_is_unsigned(self.x) == 0 ==> r == Some(ffi_as_longlong(self.x))",
              "ffi_kind(self.x) == CXEval_Int && ffi_is_unsigned(self.x) != 0 ==> r == Some(ffi_as_unsigned(self.x) as i64)",
+         ]},
+        # string constants: the evaluator's buffer is read as a NUL-terminated byte string, which is the C value only for
+        # one-byte character types (a wide / UTF-16 / UTF-32 literal has zero bytes inside every ASCII character)
+        {"kind": "fn", "file": CL, "name": "as_literal_string", "impl": r"^impl EvalResult$", "impl_header": "impl EvalResult", "impl_name": "EvalResult", "ret": "r",
+         "subst": [
+             (r"re:let char_ty = self\.ty\.pointee_type\(\)\.or_else\(\|\|\s*([^;]+?)\)\?;",
+              r"let char_ty = match (match self.ty.pointee_type() { Some(t_) => Some(t_), None => \1 }) { Some(t_) => t_, None => { return None; } };", 1, "R7 Option::or_else + `?`"),
+             (r"re:let ret = unsafe \{\s*CStr::from_ptr\(clang_EvalResult_getAsStr\(self\.x\)\)\s*\};\s*Some\(ret\.to_bytes\(\)\.to_vec\(\)\)", "Some(ffi_str_bytes(self.x))", 1, "R20/R21 CStr view of the FFI buffer (every occurrence)"),
+         ],
+         "ensures": [
+             "r.is_some() ==> ffi_kind(self.x) == CXEval_StrLiteral && r.unwrap()@ == ffi_cstr_bytes(self.x)",
+             # C05: emitted only when the byte string IS the C value
+             "r.is_some() ==> ({ let e = match ty_pointee(self.ty) { Some(t) => Some(t), None => ty_elem(self.ty) }; "
+             "e.is_some() && (ty_kind(e.unwrap()) == CXType_Char_S || ty_kind(e.unwrap()) == CXType_SChar || ty_kind(e.unwrap()) == CXType_Char_U || ty_kind(e.unwrap()) == CXType_UChar) })",
          ]},
         # enum constants: the signed getter for signed enums, the UNSIGNED getter for unsigned ones (a 64-bit unsigned
         # enumerator above i64::MAX read through the signed getter would come out negative)
